@@ -48,11 +48,19 @@ Definition perr_sim (a b : perr) : bool := err_eqb (pe_err a) (pe_err b) && path
 Definition is_model_err (e : perr) : bool :=
   err_eqb (pe_err e) err_invalid || err_eqb (pe_err e) err_fuel.
 
+(** An observed error against a needed failure: the same class, the same text - except for client errors
+    raised by thunder itself (bad directive), whose wording is thunder's own business - and the same
+    path up to list indices. *)
+Definition obs_err_sim (c : eclass) (t : string) (p : path) (f : perr) : bool :=
+  eclass_eqb c (e_class (pe_err f)) &&
+  (match c with EClient => true | _ => String.eqb t (e_text (pe_err f)) end) &&
+  path_sim p (pe_path f).
+
 (** Does the observation agree with the reference semantics [r]? *)
 Definition obs_matches_ref (r : eres) (o : obs) : bool :=
   match o, snd r with
   | OJson j, [] => json_eqb (norm (fst r)) j
-  | OErr c t p, (_ :: _) as fs => existsb (perr_sim (mk_perr (mk_err c t) p)) fs
+  | OErr c t p, (_ :: _) as fs => existsb (obs_err_sim c t p) fs
   | _, _ => false
   end.
 
